@@ -111,6 +111,11 @@ func (fr *FnRun) callStatic(st *State, site ssa.Instruction, fn *ssa.Function, a
 		fr.applyContract(st, site, ctr, fn, fn.Signature, args, k)
 		return
 	}
+	if o := fn.Origin(); o != nil && ctr == nil && !inRepo(o) {
+		// instance of a generic function of a dependency: unspecified callee with the instantiated signature
+		fr.havocCall(st, site, ShortKey(key), fn.Signature, args, k)
+		return
+	}
 	if fn.Blocks != nil && (ctr != nil || fn.Synthetic != "" || (inRepo(fn) && ex.autoInline(fn))) {
 		if depth > 12 {
 			panic(abortf("inline depth exceeded at %s", ShortKey(key)))
